@@ -5,7 +5,7 @@ import tgen
 # name -> (wrapper declarations, wrapped type text, wrapped value text, wrapped pattern text,
 #          wrapped value as a generator value given the inner value's s-expression)
 POSITIONS = ["field", "root", "tuple-elem", "enum-elem", "slice-elem", "set-elem", "map-value", "ok", "err",
-             "nested-field", "tuple-index", "index", "deref", "method", "wildcard-field", "struct-variant-field"]
+             "nested-field", "tuple-index", "index", "deref", "method", "wildcard-field", "struct-variant-field", "method-value"]
 
 
 def wrap(pos, g, t, v, pat):
@@ -54,6 +54,10 @@ def wrap(pos, g, t, v, pat):
     if pos == "method":
         return ("#[derive(Debug)] struct W { f: %s }\nimpl W { fn get(&self) -> &%s { &self.f } }\n#[derive(Debug)] struct W2 { w: W }" % (T, T),
                 "W2", "W2 { w: W { f: %s } }" % E, "W2 { w.get(): %s }" % pat, adt("W2", ["w"], [adt("W", ["f"], [S])]))
+    if pos == "method-value":
+        # the method returns the value itself (a temporary), not a reference into the struct
+        return ("#[derive(Debug)] struct W { f: %s }\nimpl W { fn get(&self) -> %s { self.f.clone() } }\n#[derive(Debug)] struct W2 { w: W }" % (T, T),
+                "W2", "W2 { w: W { f: %s } }" % E, "W2 { w.get(): %s }" % pat, adt("W2", ["w"], [adt("W", ["f"], [S])]))
     raise ValueError(pos)
 
 
@@ -63,5 +67,5 @@ POSITION_CLASS = {
     "enum-elem": "reference-binding", "slice-elem": "reference-binding", "set-elem": "reference-binding",
     "map-value": "reference-binding", "ok": "reference-binding", "err": "reference-binding",
     "struct-variant-field": "reference-binding", "wildcard-field": "reference-to-place",
-    "nested-field": "place", "tuple-index": "place", "index": "place", "deref": "place", "method": "method-result",
+    "nested-field": "place", "tuple-index": "place", "index": "place", "deref": "place", "method": "method-result", "method-value": "temporary",
 }
